@@ -1408,6 +1408,9 @@ def install(reg):
             return x
         if isinstance(x, Kind) and x.kind == "npscalar0":
             return mk_ndarray(x.payload["dtype"], (), x.payload["data"])
+        if isinstance(x, Kind) and x.kind in ("npint", "npfloat", "npbool", "npcomplex"):
+            # 0-d array holding the numpy scalar's value
+            return mk_ndarray(DType(str(x.payload["rep"].dtype)), (), ("np0", id(x)))
         if isinstance(x, (list, tuple)) and all(is_numeric_value(v) for v in x):
             return mk_ndarray(DType(promoted_dtype(x)), (len(x),), ("seq", tuple(numeric_of(v) for v in x)))
         if prev_asarray is not None and not isinstance(x, (Kind, list, tuple)):
